@@ -33,9 +33,10 @@ EX_MISC = ['se ai', 'se noai', 'se ic', 'se noic', 'se hl', 'se nohl', 'se hll',
            '', ' ', ':', '::', '|', '||', 'd|d', 'p|p|p', '"comment', 'p "c', 'u', 'u', 'redo', 'redo', 'u|u', 'ec', 'ec hi', 'ec %', 'ec #', 'unknowncmd', 'zz', '1', '$', '0', '5', '+', '-', '+5', '-5',
            's', 's/a', 's/a/', 's/a/b', 's//x/', 's/a/b/g', '&', '~', 's/\\(/x/', 's/(/x/', 's/[/x/', 's/a{3,1}/x/', 's/a{1,200}/x/', 's/x{,1000}/y/', 's/a{0,129}//', 'rs a\n@a\n.\n@a', 'rs a\n@b\n@a\n.\nrs b\np\n.\n@a', 's/a/\\1/', 's/(a)|b/\\1\\2\\9/g', 's/x*/-/g', 's/$/\\n/', 's/^/\\//',
            'g', 'g/', 'g/a', 'g/a/', 'g//d', 'g/a/g/b/d', 'g/a/g/b/g/c/p', 'g/a/a', 'g/a/i', 'g/a/c', 'g/./d|u', 'g/a/u', 'g/a/e f2', 'g/a/b 2', 'v/a/d', 'g!/a/d', 'g/a/s//x/|s/x/y/', 'g/a/-1d', 'g/a/+1d', 'g/a/1,$d',
+           'g/^abcdefgh/p', 'v/^hello World$/d', '%s/^abc$/x/', '%s/^foo_bar\\>/x/', '/^abcdefghijkl/p', '?^\\<foobarbaz$?p', 'g/xxxxxxxxxxxxxxxxxxxx$/p', '%s/\\<abcdefghijklmnop\\>//g',
            'a', 'i', 'c', '0a', '0i', '0c', '$a', '1,2c', '99a', 'a|p', 'rs a', 'rs', 'rs \\x']
 
-VI_ODD = ['\x1b', ':\x1b', '/\x1b', '?\x1b', '!\x1b', 'd\x1b', 'c\x1b', '"\x1b', '"ad\x1b', 'r\x1b', 'f\x1b', 'm\x1b', "'\x1b", '`\x1b', 'z\x1b', 'g\x1b', 'Z\x1b', '@\x1b', 'q\x1b', '\x17\x1b', '[\x1b', ']\x1b',
+VI_ODD = ['/^abcdefgh\n', '?^abc$\n', '/^foo_bar_baz\\>\n', '\x1b', ':\x1b', '/\x1b', '?\x1b', '!\x1b', 'd\x1b', 'c\x1b', '"\x1b', '"ad\x1b', 'r\x1b', 'f\x1b', 'm\x1b', "'\x1b", '`\x1b', 'z\x1b', 'g\x1b', 'Z\x1b', '@\x1b', 'q\x1b', '\x17\x1b', '[\x1b', ']\x1b',
           '[[', ']]', '3[[', 'gg', 'gd', 'gf', 'gl', 'ga', 'gu\x1b', 'g~~', '\x1d', '\x14', '\x17s', '\x17j', '\x17k', '\x17o', '\x17c', '\x17x', '\x17s\x17s', '\x17gf', '\x17gl', '\x17gd', '\x17\x1d', '\x17q1',
           'q1', 'q2', 'qa', 'qZ', 'q\n', 'zj', 'zk', 'zJ', 'zK', 'zD', 'z>', 'z<', '2z>', '2z<', 'ze', 'zf', '\x1e', 'ZQ', '@a', '@@', '@:', '@.', '@/', '@"', '5@a', '"ayy@a', '".p', '":p', '"/p', '"%p', '"#p', '"^p', '";p', '"\\ap',
           '99999999999G', '0', '00', '1G0i\x1b', 'Gdd', 'ggdG', ':%d\n', 'dGu', 'dGp', 'dGP', 'dGi\x1b', 'dGo\x1b', 'dGJ', 'dGx', 'dGr', 'dG~', 'dG.', 'dG>>', 'dG!!cat\n', 'dG:s/a/b/\n', 'dG:1\n', 'dG\x07', 'dG\x01',
@@ -161,6 +162,10 @@ def capacity_case(R, idx):
     return {'idx': idx, 'mode': mode, 'rows': rows, 'cols': cols, 'files': files, 'args': args, 'data': data.encode()}
 
 
+EDGE_CP = ['\U000f0000', '\U0010ffff', '\U000e01ef', '\U000e01f0', '\U000e0100', '\uffff', '\ufffd', '\U0001f1e6', '\U000e007f', '\x7f', '\u0085', '\u009f', '\u00ad', '\u0300', '\u036f', '\u0370',
+           '\u1100', '\u115f', '\u1160', '\u2e80', '\ua4cf', '\uac00', '\ud7a3', '\ud7a4', '\uff00', '\uff60', '\uffe6', '\U00020000', '\U0003fffd', '\U0003fffe', '\u200b', '\u200f', '\u2028', '\u202e', '\ufeff']
+
+
 def make_case(idx, tests):
     R = rng('c05', idx)
     x = R.random()
@@ -174,6 +179,12 @@ def make_case(idx, tests):
         lines.append(gen.long_line(R, kind, R.choice([100, 300, 1000])))
     if R.random() < 0.05:
         lines = [gen.rand_line(R, kind) for _ in range(R.randint(30, 120))]
+    if kind == 'mixed' and R.random() < 0.12 and lines:
+        # code points at the ends of the width / zero-width / non-printable tables and of the code space
+        for _ in range(R.randint(1, 4)):
+            k = R.randrange(len(lines))
+            p = R.randint(0, len(lines[k]))
+            lines[k] = lines[k][:p] + R.choice(EDGE_CP) + lines[k][p:]
     files = {'f1': gen.buf_bytes(lines, R.random() < 0.9), 'f2': gen.buf_bytes(gen.rand_buffer(R, kind, 5)), 'f3': b'three\n',
              'src': b'1\ns/a/b/\nec sourced\n', 'tags': b'foo\tf2\t/o/\nmain\tf1\t1\nmain\tf3\t/three/\n'}
     rows, cols = R.choice(WINDOWS)
@@ -188,7 +199,7 @@ def make_case(idx, tests):
         for _ in range(R.randint(1, 8)):
             lines.insert(R.randint(0, len(lines)), R.choice(code))
         files[ftname] = gen.buf_bytes(lines, R.random() < 0.9)
-    pool = gen.PUNCT + gen.ASCII_WORDS + gen.MB_WORDS + ['\x1b', '\n', ':', '\x17', '"', '1', '9', 'd', 'c', 'y', 'p', 'u', '.', '@', 'q', 'g', 'z', 'G', '\x12', '\x16', '\x0b']
+    pool = gen.PUNCT + gen.ASCII_WORDS + gen.MB_WORDS + EDGE_CP[:4] + ['\x1b', '\n', ':', '\x17', '"', '1', '9', 'd', 'c', 'y', 'p', 'u', '.', '@', 'q', 'g', 'z', 'G', '\x12', '\x16', '\x0b']
     src = R.random()
     if mode == 'v':
         if src < 0.45:
